@@ -161,6 +161,52 @@ def numpy_harness(L, sw, ch, n):
     return path
 
 
+def array_reuse_harness(L, sw, ch, n):
+    """C20: a window handed over as an array (what to_array / AudioRegion.numpy() produce) is judged twice: the energy is the
+    same and the caller's array is left as it was"""
+    sig = L.modules["signal"]
+
+    def path(e):
+        shim = npshim.Shim()
+        npshim.install(L, shim)
+        raw = [z3.BitVec("b%d" % i, 8) for i in range(sw * ch * n)]
+        meta = dict(kind="array-reuse", sw=sw, ch=ch, n=n, uc=None)
+        try:
+            x = sig.to_array(Window(raw), sw, ch)
+            before = list(x.flat)
+            e1 = sig.calculate_energy(x)
+            after = list(x.flat)
+            e2 = sig.calculate_energy(x)
+        except Unsupported:
+            raise
+        except Exception as ex:
+            return now(e, "raised %s: %s" % (type(ex).__name__, str(ex)[:80]), meta)
+        for a in shim.axioms():
+            e.add(a)
+        conds = {"the caller's array is left as it was": z3.And(len(before) == len(after), *[a == b for a, b in zip(before, after)]),
+                 "same energy when the same array is judged again": z3.And(len(e1.flat) == len(e2.flat), *[a == b for a, b in zip(e1.flat, e2.flat)])}
+        return tok.discharge(e, conds, lambda m: mk(m, raw, meta))
+    return path
+
+
+def replay_array_reuse(c):
+    import numpy as np
+    from auditok import signal as rsig
+    sw, ch, n = c["sw"], c["ch"], c["n"]
+    raw = bytes(c["bytes"]) if c.get("bytes") is not None else bytes(range(1, sw * ch * n + 1))
+    x = rsig.to_array(raw, sw, ch)
+    keep = x.copy()
+    e1 = np.array(rsig.calculate_energy(x), dtype=float)
+    same = bool(np.array_equal(x, keep))
+    e2 = np.array(rsig.calculate_energy(x), dtype=float)
+    desc = "window %s as a float64 array of shape %s" % (list(raw), x.shape)
+    if not same:
+        return [("C20: judging a window changes the caller's array", desc + ": after calculate_energy() it reads %s" % x.tolist())]
+    if not np.array_equal(e1, e2):
+        return [("C20: the same window gets a different energy the second time", desc + ": %s then %s" % (e1.tolist(), e2.tolist()))]
+    return []
+
+
 def now(e, why, meta):
     return {"status": "cex", "failing": [why], "cex": dict(meta, bytes=None, thr=None)}
 
@@ -206,6 +252,8 @@ def replay_fn(c, light=False):
     sw, ch, n = c["sw"], c["ch"], c["n"]
     if c["kind"] == "numpy":
         return replay_numpy(c)
+    if c["kind"] == "array-reuse":
+        return replay_array_reuse(c)
     uc = c["uc"]
     try:
         want_err = False
@@ -420,3 +468,13 @@ def run_c20(rep):
         a.wall_s += ex.wall_s
     rep.add_exploration("validator-reuse", a)
     tok.handle_cex(rep, "validator-reuse", a, replay_fn, ideal=True)
+    b = Exploration()
+    for sw, ch in ((1, 1), (2, 2)):
+        ex = explore(array_reuse_harness(L, sw, ch, 2), workers=1)
+        b.results += ex.results
+        b.stats.update(ex.stats)
+        b.solver_s += ex.solver_s
+        b.paths += ex.paths
+        b.wall_s += ex.wall_s
+    rep.add_exploration("array-window-reuse", b)
+    tok.handle_cex(rep, "array-window-reuse", b, replay_fn, ideal=True)
